@@ -1064,6 +1064,7 @@ func checkHierarchical(p *core.Prog, r *core.Report, ds *core.Describer, f *ssa.
 	// presence test on the same key
 	var testGetter string
 	thresholdNote := ""
+	assertedPresence := false
 	presence := func(c core.Cond) int {
 		if keyForm {
 			if c.Op == "" && c.B != nil {
@@ -1082,6 +1083,13 @@ func checkHierarchical(p *core.Prog, r *core.Report, ds *core.Describer, f *ssa.
 			if c.B != nil {
 				var g string
 				hit := false
+				// presence asked by a type assertion on viper.Get(key): a value that reaches viper as a string (an
+				// environment variable, a quoted scalar) fails the assertion and counts as unset
+				if ex, isEx := c.B.Val.(*ssa.Extract); isEx {
+					if _, isTA := ex.Tuple.(*ssa.TypeAssert); isTA {
+						assertedPresence = true
+					}
+				}
 				c.B.Walk(func(x *core.VD) bool {
 					if x.Kind == "call" && strings.Contains(x.Name, "spf13/viper.") && len(x.Args) == 1 && x.Args[0].Val == keyV {
 						hit = true
@@ -1196,6 +1204,7 @@ func checkHierarchical(p *core.Prog, r *core.Report, ds *core.Describer, f *ssa.
 					}
 					return true
 				})
+				r.Check(!assertedPresence, "C19.3", construct+"|presence-not-by-type-assertion", p.Pos(ret.Pos()), "presence is asked of a viper getter, not of the dynamic type of the stored value", "presence is decided by a type assertion on viper.Get(key): a value that reaches viper as a string (an environment variable, a quoted scalar in the file) has another dynamic type, so a more specific setting given that way counts as unset")
 				nonScalar := strings.HasPrefix(valueGetter, "GetStringSlice") || strings.HasPrefix(valueGetter, "GetStringMap") || strings.HasPrefix(valueGetter, "GetIntSlice")
 				r.Check(!(nonScalar && testGetter == "GetString"), "C19.3", construct+"|presence-getter-fits-value", p.Pos(ret.Pos()), "presence is asked with a getter that sees the kind of value that is returned", "the value is read with "+valueGetter+" but its presence is tested with GetString: a list given as a list in the configuration file reads as the empty string, so the more specific level counts as unset")
 			}
